@@ -98,6 +98,9 @@ def m_subtags(c, binp, tier, light=False):
         runs += [("sub-all3", dict(MaxLen=3, FullLen=3, Alpha="all", Emit=True))]
     for name, consts in runs:
         c.add_model(run_model("%s-%s" % (c.prop, name), "MC_Subtags", consts, SUB_INV, binp=binp, workers=12, timeout=7200))
+    # real words: every language, script and region of the bundled CLDR data, in three casings
+    data_env()
+    c.add_model(run_model("%s-sub-cldr-words" % c.prop, "MC_SubCldr", {}, ["WordsAreSubtags", "CanonFix", "EmitCase"], binp=binp, workers=4))
 
 
 def m_object(c, binp, tier, edges=True, hist=True, full=True, parts=("U", "T", "X", "Id")):
@@ -172,6 +175,13 @@ def m_laws(c, tier):
                  ("laws-2x2x1-consistent", {"Universe": "2x2x1", "Shape": "consistent"})]
     for name, consts in runs:
         c.add_model(run_model("%s-%s" % (c.prop, name), "MC_LikelyLaws", consts, LAWS_INV, workers=14, replay=False, timeout=7200))
+
+
+def m_proofs(c):
+    """C07/C08 laws proved with TLAPS for every table (unbounded), see spec/LikelyProofs.tla"""
+    res = engine.run_proofs("%s-tlaps" % c.prop)
+    c.add_model(res)
+    c.extra_cov["tlaps_obligations_proved"] = res["tlaps"]["obligations_proved"]
 
 
 def m_cldr(c, binp, tier, modes=("keys", "closure"), tag=""):
@@ -328,25 +338,27 @@ def C06(tier, seed):
 def C07(tier, seed):
     c = Check("C07", tier, seed)
     binp = build_harness(ALL)
+    m_proofs(c)
     m_laws(c, tier)
     m_cldr(c, binp, tier, modes=("closure",))
     m_object_likely(c, binp, tier)
     traces(c, binp, "hist", tier, quick_n=2500)
     traces(c, binp, "likely", tier, quick_n=1500)
-    return c.finish(rule="laws (only adds, fills all three, false=>unchanged, idempotent) model-checked for every table over small subtag universes incl. unknown subtags; on the real table every closure triple is run through the library with variants and extensions attached and compared before/after/twice; maximize steps inside random histories are validated by Trace.tla",
+    return c.finish(rule="the laws (only adds, fills all three, false=>unchanged, idempotent) are PROVED with TLAPS for the specification's Maximize over every table whose values are full triples (LikelyProofs.tla; the premise is checked on the CLDR data by MC_Cldr and on the compiled tables by C18); laws (only adds, fills all three, false=>unchanged, idempotent) model-checked for every table over small subtag universes incl. unknown subtags; on the real table every closure triple is run through the library with variants and extensions attached and compared before/after/twice; maximize steps inside random histories are validated by Trace.tla",
                     assumptions=ASSUME_COMMON, exhaustive=True)
 
 
 def C08(tier, seed):
     c = Check("C08", tier, seed)
     binp = build_harness(ALL)
+    m_proofs(c)
     m_laws(c, tier)
     m_cldr(c, binp, tier, modes=("closure",))
     m_sweep(c, binp, tier, parts=("known", "und"))
     m_object_likely(c, binp, tier)
     traces(c, binp, "hist", tier, quick_n=2500)
     traces(c, binp, "likely", tier, quick_n=1500)
-    return c.finish(rule="the whole 3.1e8-triple universe through likelysubtags::minimize compared per equivalence class with the pattern of MinimizeF (MC_Sweep.tla; the laws hold for the representative of every class on the specification); minimize laws (meaning preserved, no foreign subtag, first of {l, l-r, l-s}, idempotent, min.max=min, never longer) model-checked for every table over small universes; on the real table every closure triple through likelysubtags::minimize and the method, compared with MinimizeF",
+    return c.finish(rule="meaning preservation, no foreign subtag, at most one of script/region, first-of-{l, l-r, l-s}, idempotence and minimize.maximize = minimize are PROVED with TLAPS for the specification's Minimize over every table (LikelyProofs.tla); the whole 3.1e8-triple universe through likelysubtags::minimize compared per equivalence class with the pattern of MinimizeF (MC_Sweep.tla; the laws hold for the representative of every class on the specification); minimize laws (meaning preserved, no foreign subtag, first of {l, l-r, l-s}, idempotent, min.max=min, never longer) model-checked for every table over small universes; on the real table every closure triple through likelysubtags::minimize and the method, compared with MinimizeF",
                     assumptions=ASSUME_COMMON, exhaustive=True)
 
 
